@@ -654,6 +654,16 @@ func (ndb *nodeDB) DeleteVersionsFrom(fromVersion int64) error {
 	}
 
 	// NOTICE: we don't touch fast node indexes here, because it'll be rebuilt later because of version mismatch.
+	// The label of the index is dropped, so that the mismatch is also seen when the erased version
+	// numbers are committed again without maintaining the index (skipFastStorageUpgrade).
+	if ndb.hasUpgradedToFastStorage() {
+		if err := ndb.batch.Delete(metadataKeyFormat.Key([]byte(storageVersionKey))); err != nil {
+			return err
+		}
+		ndb.mtx.Lock()
+		ndb.storageVersion = defaultStorageVersionValue
+		ndb.mtx.Unlock()
+	}
 
 	ndb.resetLatestVersion(dumpFromVersion - 1)
 
